@@ -196,14 +196,7 @@ pub(crate) mod verif_sys {
     );
 
     fn mk_ctx(inbound: bool) -> EntryContext {
-        let mut ctx = EntryContext::new();
-        ctx.set_input(SentinelInput::new(1, 0));
-        ctx.set_resource(ResourceWrapper::new(
-            String::new(),
-            ResourceType::Common,
-            if inbound { TrafficType::Inbound } else { TrafficType::Outbound },
-        ));
-        ctx
+        crate::core::base::context::verif_ctx::mk_ctx("r", inbound, 1, 0, None)
     }
 
     // AdaptiveSlot::check, outbound: context untouched, no metric read, whatever the rules say
